@@ -796,6 +796,347 @@ def reply_corr(cx, a, sp, rng):
         do_read(cx, s, script=raw)
 
 
+# ====================================================================================================
+# Extension: the data-file directory and the processor type (Model/SlcDir.v, Spec/SlcDirSpec.v)
+#   correspondence of _get_sys0_info, _parse_file0, _read_whole_file_directory, _get_file_directory_size
+#   and get_processor_type with the model; the round-trip oracle (spec-side image of a directory ->
+#   the directory) evaluated on the implementation.  The C18 property text does not speak about the
+#   directory: deviations of the implementation from the round trip are recorded with R.count only.
+# ====================================================================================================
+DIR_CATS = ["1761-L16BWA", "1762-L40BWA", "1763-L16BWA", "1764-LRP", "1766-L32BWA", "1747-L552", "1747-L551/C", "", "1", "176",
+            "1761", "1762", "1763", "1764", "1765", "1766", "17661", " 1766", "1760", "1767-X", "1766-l32", "SLC 5/05", "l766"]
+DIR_TYPES = ["N", "B", "T", "C", "S", "F", "ST", "A", "R", "O", "I", "L", "MG", "PD", "PLS"]       # index = the spec's type index
+DIR_ESIZE = [2, 2, 6, 6, 2, 4, 84, 2, 6, 2, 2, 4, 50, 46, 12]
+DIR_CODES = [0x89, 0x85, 0x86, 0x87, 0x84, 0x8A, 0x8D, 0x8E, 0x88, 0x82, 0x83, 0x91, 0x92, 0x93, 0x94]
+
+
+def dir_family(cat):
+    """(position, row size) of the family of a catalog string: the harness's own reading of the layout"""
+    p = cat[:4]
+    if p == "1761":
+        return 93, 8
+    if p in ("1762", "1763", "1764", "1766"):
+        return 233, 10
+    return 79, 10
+
+
+def impl_sys0(cat):
+    from pycomm3 import slc_driver
+    return slc_driver._get_sys0_info(cat)
+
+
+def impl_parse_file0(sys0, data):
+    import contextlib
+    import io
+    from pycomm3 import slc_driver
+    try:
+        with contextlib.redirect_stdout(io.StringIO()):
+            d = slc_driver._parse_file0(sys0, data)
+    except Exception as e:
+        return ["exn", exn_code(e)]
+    out = ["ok", len(d)]
+    for k, v in d.items():
+        out += [k, v["elements"], v["length"]]
+    return out
+
+
+def gen_cat(rng):
+    if rng.random() < 0.8:
+        return rng.choice(DIR_CATS)
+    return "".join(rng.choice("1764 6-LBWA25") for _ in range(rng.randint(0, 8)))
+
+
+def gen_dir_files(rng):
+    """a well-formed directory: (type index, number, elements), numbers strictly increasing"""
+    files, num = [], rng.choice([0, 0, 0, 1, 2, 9])
+    for _ in range(rng.choice([0, 1, 2, 5, 9, 12, 20, 30])):
+        t = rng.randrange(15)
+        mx = 65535 // DIR_ESIZE[t]
+        el = rng.choice([0, 1, 2, mx, mx - 1, rng.randint(0, mx), rng.randint(0, 300)])
+        files.append((t, num, el))
+        num += rng.choice([1, 1, 1, 1, 2, 3, 7]) if num < 900 else 1
+    return files
+
+
+def gen_dir_rows(rng, rs):
+    rows = []
+    for _ in range(rng.choice([0, 1, 3, 8, 15, 25])):
+        k = rng.random()
+        if k < 0.6:
+            t = rng.randrange(15)
+            mx = 65535 // DIR_ESIZE[t]
+            rows.append(["f", str(t), str(rng.choice([0, 1, mx, rng.randint(0, mx), rng.randint(0, 100)])), fw.t_bytes(rng.randbytes(rs - 3))])
+        elif k < 0.75:
+            rows.append(["r", fw.t_bytes(rng.randbytes(rs - 1))])
+        else:
+            c = rng.choice([0, 0x22, 0x80, 0x8B, 0x8C, 0x8F, 0x90, 0x95, 0xFF, rng.randrange(256)])
+            if c in DIR_CODES or c == 0x81:
+                c = 0x21
+            rows.append(["o", str(c), fw.t_bytes(rng.randbytes(rs - 1))])
+    return rows
+
+
+def dir_parse_corr(R, co, cat, image, kind, expect=None):
+    """_parse_file0 on one image: model vs implementation (+ the round trip, counted only)"""
+    m = co.ask("parsefile0", fw.t_text(cat), fw.t_bytes(image))
+    i = impl_parse_file0(impl_sys0(cat), image)
+    R.corr_checked += 1
+    R.case(["dir", kind, cat, image], nontrivial=True)
+    R.count("slcdir_parse", kind + (":ok" if i[0] == "ok" else ":exn%s" % i[1]))
+    if m != i:
+        R.disagree("_parse_file0", {"catalog": cat, "image": image, "kind": kind}, m, i)
+    if expect is not None:
+        R.count("slcdir_roundtrip_on_impl", "same" if i == ["ok"] + expect else "DIFFERENT (not a C18 clause)")
+        if m != ["ok"] + expect:
+            R.disagree("_parse_file0 model vs spec round trip (theorem C18_dir_roundtrip says equal)", {"catalog": cat, "image": image}, m, expect)
+
+
+class DirBudget(BaseException):
+    """more reads than the image has bytes: the implementation's loop is not advancing"""
+
+
+class DirSock:
+    """a controller that holds a file-0 image and answers the protected typed reads of the directory"""
+
+    def __init__(self, image, rng, fail_at=None):
+        self.image, self.rng, self.fail_at = image, rng, fail_at
+        self.sent, self.reads, self.replies = [], [], []
+
+    def send(self, msg, timeout=0):
+        self.sent.append(bytes(msg))
+        return len(msg)
+
+    def receive(self, timeout=0):
+        if len(self.reads) > len(self.image) + 8:        # step budget: a loop that stops advancing must not hang the check
+            raise DirBudget()
+        mr = self.sent[-1][46:]
+        size = mr[18]
+        off = mr[21] if mr[21] != 0xFF or len(mr) < 24 else struct.unpack("<H", mr[22:24])[0]
+        self.reads.append((size, off))
+        sts = 0x10 if self.fail_at is not None and len(self.reads) > self.fail_at else 0
+        data = self.image[2 * off:2 * off + size] if sts == 0 else b""
+        body = bytes([0xCB, 0, 0, 0, 7]) + mr[7:13] + bytes([0x4F, sts]) + mr[15:17] + data
+        rep = self.rng.randbytes(46) + body
+        self.replies.append(rep)
+        return rep
+
+    def close(self):
+        pass
+
+
+def dir_reads_corr(R, co, drv, rng, image, size, fail_at=None):
+    """_read_whole_file_directory against a controller holding `image`: reads, request bytes, data"""
+    cat = gen_cat(rng)
+    sys0 = dict(impl_sys0(cat))
+    sys0["size"] = size
+    keep = drv._sock
+    sock = DirSock(image, rng, fail_at)
+    drv._sock = sock
+    tns0 = rng.randint(1, 60000)
+    set_seq(drv, tns0)
+    try:
+        try:
+            res = ["ok", drv._read_whole_file_directory(sys0)]
+        except Exception as e:
+            res = ["exn", exn_code(e)]
+        except DirBudget:
+            res = ["does not terminate", len(sock.reads)]
+    finally:
+        drv._sock = keep
+    R.corr_checked += 1
+    R.case(["dirread", size, len(image), fail_at], nontrivial=True)
+    R.count("slcdir_reads", ("size<=0" if size <= 0 else "1 read" if size <= 80 else "%d+ reads" % min(4, (size + 79) // 80)) + ("" if fail_at is None else ":status"))
+    case = {"size": size, "image_len": len(image), "fail_at": fail_at, "catalog": cat}
+    if fail_at is None:
+        m = co.ask("readdir", str(size), "80", fw.t_bytes(image))
+        want = ["ok", res[1], len(sock.reads)] + [x for r in sock.reads for x in r] if res[0] == "ok" else res
+        if m != want:
+            R.disagree("_read_whole_file_directory: reads / data", case, m, want)
+            return
+        # the statement of C18_dir_reads_tile, evaluated on what the implementation sent (count only)
+        pos, tiled = 0, True
+        for sz, off in sock.reads:
+            tiled = tiled and sz > 0 and 2 * off == pos
+            pos += sz
+        tiled = tiled and (pos == max(size, 0)) and res[0] == "ok" and res[1] == image[:max(size, 0)]
+        R.count("slcdir_tiling_on_impl", "tiles" if tiled else "DOES NOT TILE (not a C18 clause)")
+    else:
+        if res != ["exn", EXN_CODES["ResponseError"]] and len(sock.reads) > fail_at:
+            R.disagree("_read_whole_file_directory: status != 0", case, ["exn", EXN_CODES["ResponseError"]], res)
+    # every request the implementation sent = the model's request for that (size, offset)
+    for frame, (sz, off) in zip(sock.sent, sock.reads):
+        mr = frame[46:]
+        tns = struct.unpack("<H", mr[15:17])[0]
+        m = co.ask("dirreq", fw.t_bytes(drv._cfg["vid"]), fw.t_bytes(drv._cfg["vsn"]), str(tns), fw.t_text(cat), str(sz), str(off))
+        R.corr_checked += 1
+        if m != ["ok", mr]:
+            R.disagree("_read_whole_file_directory: request bytes", dict(case, read=[sz, off]), m, mr)
+    if sock.sent and struct.unpack("<H", sock.sent[0][46:][15:17])[0] != tns0:
+        R.disagree("_read_whole_file_directory: transaction number", case, tns0, sock.sent[0][46:][15:17])
+
+
+def dir_size_and_type_corr(R, co, drv, rng):
+    """_get_file_directory_size and get_processor_type with scripted replies"""
+    cat = gen_cat(rng)
+    vid, vsn = fw.t_bytes(drv._cfg["vid"]), fw.t_bytes(drv._cfg["vsn"])
+    sock = drv._sock
+    # size
+    sts = rng.choice([0, 0, 0, 0, 0x10, rng.randrange(256)])
+    data = rng.choice([b"", b"\x01"] + 6 * [struct.pack("<H", rng.choice([0, 1, 19967, 19968, 19969, 20500, 65535, rng.randrange(65536)])) + rng.randbytes(rng.choice([0, 0, 3]))])
+    raw = rng.randbytes(46) + bytes([0xCB, 0, 0, 0, 7, 9, 16, 9, 16, 25, 113, 0x4F, sts, 1, 0]) + data
+    tns = rng.randint(1, 60000)
+    set_seq(drv, tns)
+    before = len(sock.sent)
+    sock.script = raw
+    try:
+        res = drv._get_file_directory_size(dict(impl_sys0(cat)))
+    except Exception as e:
+        res = ["exn", exn_code(e)]
+    sock.script = None
+    sent = sock.sent[before:]
+    m = co.ask("sizereq", vid, vsn, str(tns), fw.t_text(cat))
+    R.corr_checked += 1
+    R.case(["dirsize", cat, raw[58:]], nontrivial=True)
+    if len(sent) != 1 or m != ["ok", sent[0][46:]]:
+        R.disagree("_get_file_directory_size: request bytes", [cat, tns], m, [x[46:] for x in sent])
+    if sts == 0:
+        ms = co.ask("sizeof", fw.t_text(cat), fw.t_bytes(raw))
+        want = ["none"] if res is None else ["some", res] if isinstance(res, int) else res
+        R.count("slcdir_size", "none" if res is None else "size")
+        if ms != want:
+            R.disagree("_get_file_directory_size: size", [cat, raw], ms, want)
+    elif res is not None:
+        R.disagree("_get_file_directory_size: status != 0", [cat, raw], ["none"], res)
+    # processor type: a SendUnitData reply frame as the reference target frames it, the catalog at bytes 66..76
+    name = rng.choice(["1766-L32BWA", "1747-L552  ", " 1763-L16  ", "\t1761-L10\x1c\n ", "           ", "1764-LRP\x00\x00\x00", "".join(chr(rng.randrange(128)) for _ in range(11))])
+    name = name.encode("latin-1")[:rng.choice([11, 11, 11, 11, 5, 0])]
+    if rng.random() < 0.1:
+        name = rng.randbytes(11)
+    tns = rng.randint(1, 60000)
+    set_seq(drv, tns)
+    before = len(sock.sent)
+    body0 = bytes([0xCB, 0, 0, 0, 7, 9, 16, 9, 16, 25, 113, 0x46, 0, 1, 0]) + rng.randbytes(5) + name + rng.randbytes(rng.choice([0, 0, 8]))
+
+    class _Sock(FakeSock):
+        def receive(self, timeout=0):
+            req = self.sent[-1]
+            body = req[44:46] + body0
+            items = struct.pack("<IHH", 0, 0, 2) + struct.pack("<HH", 0xA1, 4) + req[36:40] + struct.pack("<HH", 0xB1, len(body)) + body
+            self.last_reply = struct.pack("<HHII", 0x70, len(items), struct.unpack("<I", req[4:8])[0], 0) + req[12:20] + struct.pack("<I", 0) + items
+            return self.last_reply
+
+    ps = _Sock(sock.co)
+    drv._sock = ps
+    try:
+        try:
+            typ = drv.get_processor_type()
+        except Exception as e:
+            typ = ["exn", exn_code(e)]
+    finally:
+        drv._sock = sock
+    m = co.ask("ptreq", vid, vsn, str(tns))
+    R.corr_checked += 1
+    R.case(["ptype", name], nontrivial=True)
+    if len(ps.sent) != 1 or m != ["ok", ps.sent[0][46:]]:
+        R.disagree("get_processor_type: request bytes", [tns], m, [x[46:] for x in ps.sent])
+    elif ps.last_reply is not None:
+        mt = co.ask("ptype", fw.t_bytes(ps.last_reply))
+        if mt == ["nonascii"]:
+            R.count("slcdir_ptype", "non-ascii (utf-8 decoding not modelled)")
+        else:
+            R.count("slcdir_ptype", "ascii")
+            if mt != ["typ", typ]:
+                R.disagree("get_processor_type: catalog string", [name, ps.last_reply], mt, typ)
+
+
+def run_slcdir(R, co=None, drv=None, thorough=False):
+    if co is None:
+        co = Co()
+        try:
+            return run_slcdir(R, co, make_driver(co), thorough)
+        finally:
+            co.close()
+    rng = R.rng
+    # 1. _get_sys0_info on catalog strings
+    for cat in DIR_CATS + [gen_cat(rng) for _ in range(1500 if thorough else 300)]:
+        d = impl_sys0(cat)
+        i = ["sys0", d["file_position"], d["row_size"], d["file_type"], d["size_element"], d["size_len"],
+             d.get("size_const", "none"), d.get("file_type_queue", "none")]
+        if set(d) - {"file_position", "row_size", "file_type", "size_element", "size_len", "size_const", "file_type_queue"}:
+            i.append(sorted(d))
+        m = co.ask("sys0", fw.t_text(cat))
+        R.corr_checked += 1
+        R.case(["sys0", cat], nontrivial=True)
+        R.count("slcdir_family", "%d/%d" % (d["file_position"], d["row_size"]))
+        if m != i:
+            R.disagree("_get_sys0_info", cat, m, i)
+        f = co.ask("family", fw.t_text(cat))
+        if f != ["fam", *dir_family(cat)]:
+            raise RuntimeError(f"Spec/SlcDirSpec.family_of_catalog disagrees with the harness's reading of the layout on {cat!r}: {f}")
+    # 2. _parse_file0: valid directories of every family (spec-side images), rows with reserved / foreign types, malformed images
+    images = []
+    for _ in range(6000 if thorough else 800):
+        cat = gen_cat(rng)
+        pos, rs = dir_family(cat)
+        files = gen_dir_files(rng)
+        r = co.ask("encdir", fw.t_text(cat), fw.t_bytes(rng.randbytes(pos)), *[str(x) for f in files for x in f])
+        image, expect = r[1], r[2:]
+        want = [len(files)] + [x for (t, n, e) in files for x in (DIR_TYPES[t] + str(n), e, e * DIR_ESIZE[t])]
+        if expect != want:
+            raise RuntimeError(f"Spec/SlcDirSpec.dir_view disagrees with the harness's reading of the directory: {files} {expect}")
+        dir_parse_corr(R, co, cat, image, "valid", expect)
+        images.append((cat, pos, rs, image))
+    for _ in range(4000 if thorough else 450):
+        cat = gen_cat(rng)
+        pos, rs = dir_family(cat)
+        r = co.ask("encrows", fw.t_bytes(rng.randbytes(pos)), *[x for row in gen_dir_rows(rng, rs) for x in row])
+        dir_parse_corr(R, co, cat, r[1], "rows", r[2:])
+        images.append((cat, pos, rs, r[1]))
+    for _ in range(15000 if thorough else 1600):
+        cat, pos, rs, image = rng.choice(images)
+        k = rng.random()
+        nrows = max(1, (len(image) - pos) // rs)
+        if k < 0.45:                     # truncated: inside / at the edges of a row, in the header
+            cut = rng.choice([pos + rs * rng.randrange(nrows) + rng.choice([0, 1, 2, 3, rs - 1]), rng.randrange(len(image) + 1), rng.choice([0, 1, 46, 47, 52, 53, 54, pos - 1, pos, pos + 1])])
+            dir_parse_corr(R, co, cat, image[:max(0, cut)], "truncated")
+        elif k < 0.8:                    # type bytes / length bytes overwritten
+            b = bytearray(image)
+            for _ in range(rng.choice([1, 1, 2, 5])):
+                at = pos + rs * rng.randrange(nrows) + rng.choice([0, 0, 0, 1, 2])
+                if at < len(b):
+                    b[at] = rng.choice([0x81, 0, 0xFF, 0x80, 0x95, rng.choice(DIR_CODES), rng.randrange(256)])
+            dir_parse_corr(R, co, rng.choice([cat, gen_cat(rng)]), bytes(b), "overwritten")
+        elif k < 0.9:                    # the image of one family read with the layout of another
+            dir_parse_corr(R, co, gen_cat(rng), image, "other-family")
+        else:
+            dir_parse_corr(R, co, cat, rng.randbytes(rng.choice([0, 1, 52, 53, 79, 80, 82, 93, 96, 233, 236, rng.randrange(400)])), "random")
+    # any position / row size (the function takes the dict as given)
+    for _ in range(4000 if thorough else 350):
+        pos, rs = rng.choice([0, 1, 52, 53, 60, 79, 300]), rng.randint(1, 12)
+        image = bytearray(rng.randbytes(rng.choice([53, 54, 60, 90, 150, 310])))
+        for at in range(pos, len(image), rs):
+            if rng.random() < 0.7:
+                image[at] = rng.choice(DIR_CODES + [0x81])
+        image = bytes(image[:rng.choice([len(image), len(image), rng.randrange(len(image) + 1)])])
+        m = co.ask("parsefile0at", str(pos), str(rs), fw.t_bytes(image))
+        i = impl_parse_file0({"file_position": pos, "row_size": rs}, image)
+        R.corr_checked += 1
+        R.case(["dirat", pos, rs, image], nontrivial=True)
+        R.count("slcdir_parse", "any-layout" + (":ok" if i[0] == "ok" else ":exn%s" % i[1]))
+        if m != i:
+            R.disagree("_parse_file0 (position / row size as given)", {"pos": pos, "row": rs, "image": image}, m, i)
+    # 3. _read_whole_file_directory
+    for _ in range(1500 if thorough else 120):
+        image = rng.randbytes(rng.choice([0, 1, 2, 79, 80, 81, 160, 161, 239, 240, 513, 600, 1023, rng.randrange(1200)]))
+        size = rng.choice([len(image), len(image), len(image), max(0, len(image) - rng.randint(0, 90)), 0, -5, rng.randint(0, len(image))])
+        dir_reads_corr(R, co, drv, rng, image, size)
+        if size > 0 and rng.random() < 0.3:
+            dir_reads_corr(R, co, drv, rng, image, size, fail_at=rng.randrange((size + 79) // 80))
+    # 4. size and processor type
+    for _ in range(3000 if thorough else 200):
+        dir_size_and_type_corr(R, co, drv, rng)
+
+
 # ------------------------------------------------------------------------------ entry points
 def run_corpus(cx, rng):
     d = os.path.join(fw.VERIF, "corpus", "C18")
@@ -871,6 +1212,7 @@ def run(R, escalate=False):
         R.count("parse_stream", "affixes/case", len(affixed))
         parse_corr(R, co, base + extra + mutated + affixed + ["", ":", "N", "N7", "N7:", "{", "N7:0{}", "N7:0{", "B3/", "I:", "O:0/", "T4:0.", "S:"],
                    cx=cx, rng=rng, budget=6000 if thorough else 700)
+        run_slcdir(R, co, drv, thorough)
     finally:
         logging.disable(logging.NOTSET)
         co.close()
